@@ -657,6 +657,12 @@ func (fc *FuncCtx) envFor(st *State, extra map[string]TV) *Env {
 	for k, v := range fc.paramTV {
 		vars[k] = v
 	}
+	// variantN: the value the decreases expression of loop N had at its head (for nested loops)
+	for _, li := range fc.loopOrd {
+		if v, ok := fc.varHead[li.head]; ok {
+			vars[fmt.Sprintf("variant%d", li.ord)] = TV{T: v, S: "Int"}
+		}
+	}
 	for k, v := range extra {
 		vars[k] = v
 	}
